@@ -28,6 +28,9 @@ class CaseTimeout(BaseException):
 
 DEADLINE = [0.0]
 STEP = [12.0]
+# a timer interrupt can leave lcapy/sympy global state (context stack, caches) half-updated: after the first
+# timeout nothing more is computed in this process; the remaining cases are handed to a fresh process
+TAINT = [False]
 
 
 def arm(step=None):
@@ -211,6 +214,9 @@ def sval(x, point):
 
 def attempt(api, name, f, point, tm=None):
     t0 = time.time()
+    if TAINT[0]:
+        api[name] = {'error': 'skipped: after a timeout in this process'}
+        return
     try:
         arm()
         try:
@@ -222,6 +228,7 @@ def attempt(api, name, f, point, tm=None):
             api[name] = {'error': 'not rational at the point'}
     except CaseTimeout:
         disarm()
+        TAINT[0] = True
         api[name] = {'error': 'timeout: step exceeded its time budget'}
     except Exception as e:
         api[name] = {'error': type(e).__name__ + ': ' + str(e)[:160]}
@@ -286,13 +293,12 @@ def run_net(case, point):
         if kind == 'dc':
             res['dumps']['lap'] = dump_sub(SubNetlist(cd.expand(), 'transient'), point)
     elif kinds == ['time']:
-        # resistive circuit: Lcapy analyses it in the time domain; the model uses the equivalent single-kind analysis
-        kind = 'dc' if case.get('profile') == 'dc' else 'transient'
-        res['kind'] = kind
+        # resistive circuit: Lcapy analyses it in the time domain whatever mixture of dc and causal sources it has;
+        # the model uses the Laplace-domain analysis of the same netlist (memoryless: transform of the solution = solution
+        # of the transformed system), so X(s0) is compared directly
+        res['kind'] = 'laplace'
         res['kind_lcapy'] = 'time'
-        res['dumps'] = {'orig': dump_sub(SubNetlist(cd.expand(), kind), point)}
-        if kind == 'dc':
-            res['dumps']['lap'] = dump_sub(SubNetlist(cd.expand(), 'transient'), point)
+        res['dumps'] = {'orig': dump_sub(SubNetlist(cd.expand(), 'laplace'), point)}
     elif len(kinds) == 0:
         # no sources at all: passive network; analyse as transient
         res['kind'] = 'none'
@@ -340,24 +346,34 @@ def run_net(case, point):
         res['ground'][g] = gr
         tm['ground_' + g] = round(time.time() - t0, 2)
     # ---- load oracle: original + load  vs  returned model + load ----
-    if case.get('load'):
+    try:
+        groups = [str(k) for k in mk(lines).independent_source_groups().keys()]
+    except Exception:
+        groups = ['?']
+    res['groups'] = groups
+    # the model's source is attached the way the original's sources are: as a dc source when all of them are dc
+    # (Lcapy then chooses dc / ivp analysis for original+load and model+load alike), as an s-domain source when none is;
+    # a mixture of dc and causal sources is not a single signal kind: no load comparison
+    srckind = 'dc' if groups == ['dc'] else 's'
+    if case.get('load') and len(groups) <= 1:
         ld = subst_load(case['load'], p, m)
         cur = case['load_cur']
         gl = ['W %s 0' % m] if floating else []
+        mg = [] if '0' in (p, m) else ['W %s 0' % m]      # reference for the two-element model circuit
         attempt(res['load'], 'orig', lambda: {'vi': load_response(lines + gl + ld, p, m, cur, point)}, point, tm)
         if 'th' in models:
             def lt():
                 th = models['th']
                 V = th.Voc(lcapy.s).sympy
                 Z = th.Z.sympy
-                return {'vi': load_response(model_lines(res.get('kind'), point, V, Z, None, None, 'thev', p, m) + ['W %s 0' % m] + ld, p, m, cur, point)}
+                return {'vi': load_response(model_lines(srckind, point, V, Z, None, None, 'thev', p, m) + mg + ld, p, m, cur, point)}
             attempt(res['load'], 'thev', lt, point, tm)
         if 'nt' in models:
             def ln():
                 nt = models['nt']
                 I = nt.Isc(lcapy.s).sympy
                 Y = nt.Y.sympy
-                return {'vi': load_response(model_lines(res.get('kind'), point, None, None, I, Y, 'nort', p, m) + ['W %s 0' % m] + ld, p, m, cur, point)}
+                return {'vi': load_response(model_lines(srckind, point, None, None, I, Y, 'nort', p, m) + mg + ld, p, m, cur, point)}
             attempt(res['load'], 'nort', ln, point, tm)
     return res
 
@@ -446,7 +462,19 @@ def main():
     signal.signal(signal.SIGALRM, _alarm)
     cases = json.load(sys.stdin)
     out = []
-    for c in cases:
+    for k, c in enumerate(cases):
+        if TAINT[0]:
+            # fresh interpreter for the rest
+            import subprocess
+            try:
+                pr = subprocess.run([sys.executable, '-W', 'ignore', __file__], input=json.dumps(cases[k:]),
+                                    stdout=subprocess.PIPE, stderr=subprocess.PIPE, text=True)
+                rest = json.loads(pr.stdout)
+                assert len(rest) == len(cases) - k
+            except Exception as e:
+                rest = [{'error': 'worker respawn failed: ' + str(e)[:200]}] * (len(cases) - k)
+            out += rest
+            break
         t0 = time.time()
         try:
             DEADLINE[0] = t0 + float(c.get('timeout', 60))
@@ -459,6 +487,7 @@ def main():
             out.append(r)
         except CaseTimeout:
             disarm()
+            TAINT[0] = True
             out.append({'error': 'timeout: case exceeded its time budget'})
         except Exception as e:
             import traceback
